@@ -25,7 +25,7 @@ pub struct Dims {
     pub syntax: u8,   // 0 ok, 1 token without '=' (header carrier only)
     pub missing: u8,  // bit 0 credential, 1 signature, 2 signed headers, 3 date
     pub reqs: u8,     // 0 ok, 1 host unsigned, 2 always-header unsigned, 3 if-header unsigned, 4 prefix header unsigned
-    pub date: u8,     // 0 in window, 1 malformed, 2 expired, 3 future, 4 a well-formed in-window timestamp followed by extra characters, 5 ... cut short by one character
+    pub date: u8,     // 0 in window, 1 malformed, 2 expired, 3 future, 4 a well-formed in-window timestamp followed by extra characters, 5 ... cut short by one character, 6 expired by half a second (fractional timestamp), 7 in the future by half a second
     pub cred: u8,     // 0 ok, 1 four parts, 2 six parts, 3 region, 4 service, 5 terminator, 6 date, 7 all wrong
     pub provider: u8, // 0 key, 1 ExpiredToken, 2 InvalidClientTokenId, 3 IO, 4 MalformedQueryString, 5 foreign
     pub sig: u8,      // 0 ok, 1 wrong (64 hex), 2 too long (65), 3 empty, 4 truncated (63)
@@ -43,9 +43,9 @@ impl Dims {
         v.set(Stage::Syntax, if self.query_carrier { 0 } else { self.syntax });
         v.set(Stage::Missing, self.missing);
         v.set(Stage::Requirements, self.reqs);
-        v.set(Stage::DateFormat, if self.date == 1 || self.date >= 4 { self.date } else { 0 });
-        v.set(Stage::Expired, (self.date == 2) as u8);
-        v.set(Stage::Future, (self.date == 3) as u8);
+        v.set(Stage::DateFormat, if self.date == 1 || self.date == 4 || self.date == 5 { self.date } else { 0 });
+        v.set(Stage::Expired, if self.date == 2 { 1 } else if self.date == 6 { 2 } else { 0 });
+        v.set(Stage::Future, if self.date == 3 { 1 } else if self.date == 7 { 2 } else { 0 });
         v.set(Stage::Arity, if self.cred == 1 || self.cred == 2 { self.cred } else { 0 });
         v.set(Stage::Scope, if self.cred >= 3 { self.cred - 2 } else { 0 });
         v.set(Stage::KeyLookup, self.provider);
@@ -98,6 +98,16 @@ pub fn materialize(d: &Dims) -> Option<Case> {
     // date
     match d.date {
         1 => plan.date_text = "20150830T1236Z".into(),
+        6 => {
+            plan.instant = Instant::new(now.secs - 901, 500_000_000);
+            let c = plan.instant.compact();
+            plan.date_text = format!("{}.5Z", &c[..c.len() - 1]);
+        }
+        7 => {
+            plan.instant = Instant::new(now.secs + 900, 500_000_000);
+            let c = plan.instant.compact();
+            plan.date_text = format!("{},500Z", &c[..c.len() - 1]);
+        }
         4 => plan.date_text = format!("{}junk", plan.instant.compact()),
         5 => {
             let c = plan.instant.compact();
@@ -432,7 +442,7 @@ fn dims_space(thorough: bool, query_carrier: bool) -> Vec<Vec<u8>> {
             if query_carrier { vec![0] } else { full(2) },
             full(16),
             full(5),
-            full(6),
+            full(8),
             full(8),
             full(6),
             full(5),
@@ -447,10 +457,10 @@ fn dims_space(thorough: bool, query_carrier: bool) -> Vec<Vec<u8>> {
             if query_carrier { vec![0] } else { full(2) },
             vec![0, 1, 2, 4, 8, 15],
             vec![0, 1, 2, 4],
-            vec![0, 1, 2, 3, 4],
+            vec![0, 1, 2, 3, 4, 6, 7],
             vec![0, 1, 2, 3, 6, 7],
-            vec![0, 1, 3, 5],
-            full(4),
+            vec![0, 1, 5],
+            vec![0, 1, 2],
             full(2),
         ]
     }
@@ -555,7 +565,7 @@ pub fn run(ctx: &Ctx) -> Report {
     Report {
         stats: st,
         rule: format!(
-            "precedence automaton over the 14 documented stages; full product of defect vectors per carrier ({} header-carrier, {} query-carrier vectors): path {{ok, %zz, trailing %, above root, '*'}} x query {{ok, %zz, trailing %}} x carrier {{one, none, both, both with a non-SigV4 second carrier}} x algorithm x parameter syntax x missing ⊆ {{credential, signature, signed headers, date}} x requirements {{ok, host, always, conditional, prefix unsigned}} x date {{in window, malformed, expired, future, well-formed + trailing characters, well-formed cut short}} x credential {{ok, 4 parts, 6 parts, region, service, terminator, date, all wrong}} x provider {{key, ExpiredToken, InvalidClientTokenId, IO, MalformedQueryString, foreign}} x signature {{ok, wrong, too long, empty, truncated}} x session token {{absent, present}}{}; every vector with at most two defects is validated right after the fully valid request on the same thread; every vector is materialised as a concrete request (correctly signed wherever a signature is still meaningful; 1 in 16 cross-checked against the reference verifier) and replayed on sigv4_validate_request: kind, code, status, downcast to SignatureError, status class and provider consultation compared with the automaton's terminal; plus the kind->(code,status) table for every variant directly and through From<Box<dyn Error>>. states = (stage, vector prefix) pairs of the model; transitions = stage steps",
+            "precedence automaton over the 14 documented stages; full product of defect vectors per carrier ({} header-carrier, {} query-carrier vectors): path {{ok, %zz, trailing %, above root, '*'}} x query {{ok, %zz, trailing %}} x carrier {{one, none, both, both with a non-SigV4 second carrier}} x algorithm x parameter syntax x missing ⊆ {{credential, signature, signed headers, date}} x requirements {{ok, host, always, conditional, prefix unsigned}} x date {{in window, malformed, expired, future, well-formed + trailing characters, well-formed cut short, expired / future by half a second}} x credential {{ok, 4 parts, 6 parts, region, service, terminator, date, all wrong}} x provider {{key, ExpiredToken, InvalidClientTokenId, IO, MalformedQueryString, foreign}} x signature {{ok, wrong, too long, empty, truncated}} x session token {{absent, present}}{}; every vector with at most two defects is validated right after the fully valid request on the same thread; every vector is materialised as a concrete request (correctly signed wherever a signature is still meaningful; 1 in 16 cross-checked against the reference verifier) and replayed on sigv4_validate_request: kind, code, status, downcast to SignatureError, status class and provider consultation compared with the automaton's terminal; plus the kind->(code,status) table for every variant directly and through From<Box<dyn Error>>. states = (stage, vector prefix) pairs of the model; transitions = stage steps",
             sizes[0], sizes[1], if thorough { "" } else { " (quick: a sub-lattice with at least one defect variant per stage and missing ∈ {none, each singleton, all})" }
         ),
         bounds: json!({"header_vectors": sizes[0], "query_vectors": sizes[1]}),
